@@ -7,7 +7,7 @@ from rules import anchors, common
 
 CLAIMED = True
 TECHNIQUE = "static analysis over type-checked MIR: single-snapshot-load dominance in Log::{log,enabled,flush}, snapshot immutability/ownership inventory, build-then-store ordering, lock-free delivery cone, reloader loop/edge reachability"
-LEVEL_TEXT = """Static, all-paths decision of: (A1) each of Log::log/enabled/flush has exactly one ArcSwap::load site, outside any loop, and every access to the snapshot's fields (root, appender table, error handler) goes through that one guard; (A2) Logger holds one Arc<ArcSwap<snapshot>>, the snapshot owns tree and appender table, has no interior mutability of its own, its aggregate is built only in the constructor and the tree's mutator is called only from the constructor and itself; (A3) Handle::set_config builds a complete snapshot from the new config before the single store, which lies on every path to return; (A4) the delivery cone of Log::log (cut at dyn Append/Filter) acquires no lock, so a re-entrant set_config cannot self-deadlock; (A5) reloader control flow: in run the Err arm returns to the loop head and only Ok(None) leaves; in run_once set_config is dominated by the Ok edge of Format::parse and control-dependent on the text having changed, the unchanged-mtime/unchanged-text edges return Ok(Some(rate)) without reaching the handle, and the new rate is the parsed config's refresh_rate(). arc-swap's own guarantees, real interleavings and file-system timestamps are not decided. (A12) no un-discharged panic site in what the refresh thread itself runs (the loop, run_once, reading the file, the error reporter); parsing, building and the swap are inventoried under C14.K8 / C13.V4. (A6, cont.) the reloader polls the path it was given (no canonicalize/read_link); (A1, cont.) no function called from log/enabled/flush loads the configuration again; (A13) raw-to-runtime fidelity (C14.K7). (A12, cont.) the refresh thread is spawned on the default stack."""
+LEVEL_TEXT = """Static, all-paths decision of: (A1) each of Log::log/enabled/flush has exactly one ArcSwap::load site, outside any loop, and every access to the snapshot's fields (root, appender table, error handler) goes through that one guard; (A2) Logger holds one Arc<ArcSwap<snapshot>>, the snapshot owns tree and appender table, has no interior mutability of its own, its aggregate is built only in the constructor and the tree's mutator is called only from the constructor and itself; (A3) Handle::set_config builds a complete snapshot from the new config before the single store, which lies on every path to return; (A4) the delivery cone of Log::log (cut at dyn Append/Filter) acquires no lock, so a re-entrant set_config cannot self-deadlock; (A5) reloader control flow: in run the Err arm returns to the loop head and only Ok(None) leaves; in run_once set_config is dominated by the Ok edge of Format::parse and control-dependent on the text having changed, the unchanged-mtime/unchanged-text edges return Ok(Some(rate)) without reaching the handle, and the new rate is the parsed config's refresh_rate(). arc-swap's own guarantees, real interleavings and file-system timestamps are not decided. (A12) no un-discharged panic site in what the refresh thread itself runs (the loop, run_once, reading the file, the error reporter); parsing, building and the swap are inventoried under C14.K8 / C13.V4. (A6, cont.) the reloader polls the path it was given (no canonicalize/read_link); (A1, cont.) no function called from log/enabled/flush loads the configuration again; (A13) raw-to-runtime fidelity (C14.K7). (A12, cont.) the refresh thread is spawned on the default stack. (A14, A15) refresh_rate goes through humantime with its error mapped, and the visitor has no other entry point (C20.L6 / C14.K11 re-evaluated)."""
 LEVEL_NOTE = "Trusted: rustc MIR/callee resolution; arc-swap (atomic swap, guard keeps the old snapshot alive, store does not wait on readers); std fs timestamps."
 EXPLANATION = """Decided: A1 one snapshot per call, A2 immutable self-contained snapshot, A3 build-then-store, A4 no lock across delivery, A5 reloader loop and edges. Undecided: arc-swap internals, actual interleavings, file-system timestamp behaviour."""
 DECIDED = ["A1 single load dominating all snapshot accesses", "A2 snapshot immutability/ownership", "A3 complete build before single store", "A4 lock-free delivery", "A5 reloader control flow", "A6 the reloader is started with the text that was loaded and a modification time read right beside it", "A7 changes detected through the path", "A8 remembered text is the text last read", "A9 whole-document parsers", "A10 the lossy build leaves no dangling reference (C13.V2 re-evaluated)"]
@@ -272,7 +272,12 @@ def run_cfg(ctx, p, cfg):
         from rules import c13
         c13.rule_retention(ctx, p, cfg, "A10")
         from rules import c14
-        c14.rule_raw_to_runtime(ctx, p, cfg, "A13")   # "applies a changed file's configuration": what the new document says is what is installed (C14.K7 re-evaluated)
+        c14.rule_raw_to_runtime(ctx, p, cfg, "A13")
+        # "keeps the last good configuration and keeps polling": a refresh_rate that does not parse is an error of the document (the
+        # reloader reads `None` as "stop refreshing")
+        from rules import c20, common
+        c20.rule_refresh_rate_parsing(ctx, p, cfg, "A14")
+        common.rule_visitor_entry_points(ctx, p, cfg, "A15", "config::raw::de_duration::", ("visit_str",), "refresh_rate")   # "applies a changed file's configuration": what the new document says is what is installed (C14.K7 re-evaluated)
     from rules import c02
     c02.rule_install_publishes(ctx, p, cfg, "A11")   # "records logged after the swap use the new configuration": the facade's global maximum published with a swap is the new logger's
     rule_one_snapshot(ctx, p, cfg, "A1")
